@@ -574,7 +574,8 @@ spifopt_parse(int argc, char *argv[])
         if (val_ptr) {
             if (SPIFOPT_OPT_IS_BOOLEAN(j) && !is_boolean_value(val_ptr)) {
                 val_ptr = NULL;
-            } else if (SPIFOPT_OPT_IS_ABSTRACT(j) && is_valid_option(val_ptr)) {
+            } else if (SPIFOPT_OPT_IS_ABSTRACT(j) && val_ptr == SPIF_CHARPTR(argv[i + 1]) && is_valid_option(val_ptr)) {
+                /* Only the NEXT word can be another option; an attached value ("-tVALUE", "--theme=VALUE") is a value. */
                 val_ptr = NULL;
             } else if (SPIFOPT_OPT_IS_COUNTER(j)) {
                 /* Counters never take a value. */
